@@ -13,13 +13,13 @@ Definition top_id (fs : list frame) : option nat :=
   match fs with [] => None | f :: _ => Some (frame_id f) end.
 
 Definition frame_lo (f : frame) : nat :=
-  match f with FBin _ _ _ l => lo l | FPre i _ _ => i end.
+  match f with FBin _ _ _ l => lo l | FPre i _ _ => i | FGroup i _ => i end.
 
 Definition frame_wf (f : frame) : Prop :=
-  match f with FBin i _ _ l => ordered l /\ hi l < i | FPre _ _ _ => True end.
+  match f with FBin i _ _ l => ordered l /\ hi l < i | FPre _ _ _ => True | FGroup _ _ => True end.
 
 Definition frame_has (f : frame) (j : nat) : Prop :=
-  match f with FBin i _ _ l => j = i \/ has_id l j | FPre i _ _ => j = i end.
+  match f with FBin i _ _ l => j = i \/ has_id l j | FPre i _ _ => j = i | FGroup i _ => j = i end.
 
 Fixpoint frames_have (fs : list frame) (j : nat) : Prop :=
   match fs with [] => False | f :: r => frame_has f j \/ frames_have r j end.
@@ -43,6 +43,9 @@ Definition frame_node (ns : list pnode) (f : frame) (p : option nat) (c : nat) :
   | FPre i d k =>
     exists n, nth_error ns i = Some n /\ n_sec n = S_UnaryPrefix /\ n_def n = d /\ n_parent n = p /\
               n_left n = None /\ n_right n = Some c /\ n_tok n = Some k
+  | FGroup i k =>
+    exists n, nth_error ns i = Some n /\ n_sec n = S_StartGrouping /\ n_def n = D_Group /\ n_parent n = p /\
+              n_left n = None /\ n_right n = Some c /\ n_tok n = Some k
   end.
 
 Fixpoint spine (ns : list pnode) (fs : list frame) (c : nat) : Prop :=
@@ -53,11 +56,11 @@ Fixpoint spine (ns : list pnode) (fs : list frame) (c : nat) : Prop :=
 
 (* ---- shape facts ---- *)
 Lemma frame_lo_le f : frame_wf f -> frame_lo f <= frame_id f.
-Proof. destruct f as [i d k l|i d k]; simpl; [|lia]. intros [O H]. pose proof (ordered_lo_hi l O) as B. lia. Qed.
+Proof. destruct f as [i d k l|i d k|i k]; simpl; [|lia|lia]. intros [O H]. pose proof (ordered_lo_hi l O) as B. lia. Qed.
 
 Lemma frame_has_range f j : frame_wf f -> frame_has f j -> frame_lo f <= j <= frame_id f.
 Proof.
-  destruct f as [i d k l|i d k]; simpl; [|lia]. intros [O H] [->|Hj].
+  destruct f as [i d k l|i d k|i k]; simpl; [|lia|lia]. intros [O H] [->|Hj].
   - pose proof (ordered_lo_hi l O) as B. lia.
   - pose proof (ordered_range l j O Hj) as B. lia.
 Qed.
@@ -80,16 +83,17 @@ Lemma plug_hi f t : hi (plug f t) = hi t.
 Proof. destruct f; reflexivity. Qed.
 
 Lemma plug_ordered f t : frame_wf f -> frame_id f < lo t -> ordered t -> ordered (plug f t).
-Proof. destruct f as [i d k l|i d k]; simpl; intros W L O; [destruct W; auto|auto]. Qed.
+Proof. destruct f as [i d k l|i d k|i k]; simpl; intros W L O; [destruct W; auto|auto|auto]. Qed.
 
 Lemma plug_has f t j : has_id (plug f t) j <-> frame_has f j \/ has_id t j.
-Proof. destruct f as [i d k l|i d k]; simpl; tauto. Qed.
+Proof. destruct f as [i d k l|i d k|i k]; simpl; tauto. Qed.
 
 Lemma plug_denotes ns f p t :
   frame_node ns f p (nid t) -> denotes ns (Some (frame_id f)) t -> denotes ns p (plug f t).
 Proof.
-  destruct f as [i d k l|i d k]; simpl.
+  destruct f as [i d k l|i d k|i k]; simpl.
   - intros (n & H1 & H2 & H3 & H4 & H5 & H6) D. exists n. repeat split; auto; apply H2.
+  - intros (n & H1 & H2 & H3 & H4 & H5 & H6 & H7) D. exists n. repeat split; auto.
   - intros (n & H1 & H2 & H3 & H4 & H5 & H6 & H7) D. exists n. repeat split; auto.
 Qed.
 
@@ -124,9 +128,10 @@ Lemma frame_node_ext ns ns' f p c :
   (forall j, frame_has f j -> nth_error ns' j = nth_error ns j) ->
   frame_node ns f p c -> frame_node ns' f p c.
 Proof.
-  destruct f as [i d k l|i d k]; simpl; intros E.
+  destruct f as [i d k l|i d k|i k]; simpl; intros E.
   - intros (n & H1 & H2 & H3 & H4 & H5 & H6). exists n. rewrite E by auto. repeat split; auto; try apply H2.
     eapply denotes_ext; [|exact H6]. intros j Hj. apply E. auto.
+  - intros (n & H). exists n. rewrite E by auto. exact H.
   - intros (n & H). exists n. rewrite E by auto. exact H.
 Qed.
 
@@ -220,19 +225,44 @@ Qed.
 (* ---- the walk ---- *)
 Definition walk_stop (my their : N) (rtl : bool) : bool := N.ltb my their || (N.eqb my their && rtl).
 
-(* the parser's comparison agrees with the table's for every open frame *)
+(* the innermost open bracket: the parser's [under_group] *)
+Fixpoint first_group (fs : list frame) : option nat :=
+  match fs with
+  | [] => None
+  | FGroup i _ :: _ => Some i
+  | _ :: r => first_group r
+  end.
+
+Lemma first_group_has : forall fs g, first_group fs = Some g -> frames_have fs g.
+Proof.
+  induction fs as [|f r IH]; intros g H; [discriminate|]. simpl.
+  destruct f; simpl in H; [right; apply IH; exact H|right; apply IH; exact H|injection H as <-; left; reflexivity].
+Qed.
+
+Lemma pop_first_group d fs t fs' t' : pop d fs t = (fs', t') -> first_group fs' = first_group fs.
+Proof.
+  revert t. induction fs as [|f r IH]; intros t H; cbn [pop] in H.
+  - injection H as <- <-. reflexivity.
+  - destruct (stays_below d f) eqn:E.
+    + injection H as <- <-. reflexivity.
+    + rewrite (IH _ H). destruct f; try reflexivity. discriminate E.
+Qed.
+
+(* the parser's comparison agrees with the table's for every open operator frame *)
 Definition compat (d : definition) (my : N) (rtl : bool) (fs : list frame) : Prop :=
-  forall f, In f fs -> exists their, priority (frame_def f) = Some their /\
-                                      walk_stop my their rtl = stays_below d f.
+  forall f, In f fs -> is_fgroup f = false ->
+    exists their, priority (frame_def f) = Some their /\ walk_stop my their rtl = stays_below d f /\
+                  is_group_like (frame_def f) = false.
 
 Lemma frame_node_walk ns f p c :
   frame_node ns f p c ->
   exists n, nth_error ns (frame_id f) = Some n /\ n_def n = frame_def f /\ n_parent n = p /\
             n_right n = Some c /\ secondary_eqb (n_sec n) S_UnarySuffix = false.
 Proof.
-  destruct f as [i d k l|i d k]; simpl.
+  destruct f as [i d k l|i d k|i k]; simpl.
   - intros (n & H1 & [H2 H2'] & H3 & H4 & H5 & H6). exists n. repeat split; auto.
     destruct H2' as [(B & _)|(B & _)]; [destruct (n_sec n); try discriminate; reflexivity|rewrite B; reflexivity].
+  - intros (n & H1 & H2 & H3 & H4 & H5 & H6 & H7). exists n. repeat split; auto. rewrite H2. reflexivity.
   - intros (n & H1 & H2 & H3 & H4 & H5 & H6 & H7). exists n. repeat split; auto. rewrite H2. reflexivity.
 Qed.
 
@@ -240,33 +270,41 @@ Lemma walk_spine ns id d my rtl : forall fs t fuel count fs' t',
   spine ns fs (nid t) -> compat d my rtl fs -> fordered fs (lo t) -> ordered t -> hi t < id ->
   length fs < fuel -> count + length fs <= length ns ->
   pop d fs t = (fs', t') ->
-  walk fuel ns id my false rtl None (top_id fs) (Some (nid t)) count = Ok (top_id fs', Some (nid t')).
+  walk fuel ns id my false rtl (first_group fs) (top_id fs) (Some (nid t)) count = Ok (top_id fs', Some (nid t')).
 Proof.
-  induction fs as [|f r IH]; intros t fuel count fs' t' S C F O Hid Hfuel Hcount Hpop;
+  induction fs as [|f r IH]; intros t fuel count fs' t' Sp C F O Hid Hfuel Hcount Hpop;
     (destruct fuel as [|fuel]; [simpl in Hfuel; lia|]); cbn [pop] in Hpop.
   - injection Hpop as <- <-. reflexivity.
-  - simpl in S. destruct S as [S1 S2]. simpl in F. destruct F as (F1 & F2 & F3).
+  - simpl in Sp. destruct Sp as [S1 S2]. simpl in F. destruct F as (F1 & F2 & F3).
     destruct (frame_node_walk _ _ _ _ S1) as (n & Hn & Hd & Hp & Hr & Hs).
-    destruct (C f (or_introl eq_refl)) as (their & Hth & Hcmp).
-    cbn [walk top_id]. rewrite Hn. unfold prio_of. rewrite Hd, Hth. cbn [bind].
-    rewrite Hs. cbn [andb negb]. rewrite andb_false_r. cbn [andb negb orb].
-    fold (walk_stop my their rtl). rewrite Hcmp.
-    destruct (stays_below d f) eqn:E.
-    + injection Hpop as <- <-. cbn [orb]. reflexivity.
-    + cbn [orb]. rewrite Hr.
-      pose proof (ordered_lo_hi t O) as B.
-      rewrite opt_nat_eqb_some_neq by lia.
-      simpl in Hcount. destruct (Nat.ltb_spec (length ns) (S count)); [lia|].
-      rewrite Hp. rewrite <- (plug_nid f t).
-      apply IH.
-      * rewrite plug_nid. exact S2.
-      * intros f' Hf'. apply C. right. exact Hf'.
-      * rewrite plug_lo. exact F3.
-      * apply plug_ordered; assumption.
-      * rewrite plug_hi. exact Hid.
-      * simpl in Hfuel. lia.
-      * lia.
-      * exact Hpop.
+    destruct (is_fgroup f) eqn:Eg.
+    + (* the innermost open bracket: the walk stops here whatever the operator *)
+      destruct f as [i d0 k l|i d0 k|i k]; try discriminate Eg.
+      cbn [stays_below] in Hpop. injection Hpop as <- <-.
+      cbn [walk top_id first_group frame_id]. cbn [frame_id] in Hn. rewrite Hn. unfold prio_of. rewrite Hd.
+      cbn [frame_def priority bind is_group_like]. rewrite Nat.eqb_refl. cbn [andb]. rewrite orb_true_r. reflexivity.
+    + destruct (C f (or_introl eq_refl) Eg) as (their & Hth & Hcmp & Hgl).
+      assert (Hfg : first_group (f :: r) = first_group r) by (destruct f; try reflexivity; discriminate Eg).
+      rewrite Hfg.
+      cbn [walk top_id]. rewrite Hn. unfold prio_of. rewrite Hd, Hth. cbn [bind].
+      rewrite Hs, Hgl. cbn [andb negb orb].
+      fold (walk_stop my their rtl). rewrite Hcmp.
+      destruct (stays_below d f) eqn:E.
+      * injection Hpop as <- <-. cbn [orb]. reflexivity.
+      * cbn [orb]. rewrite Hr.
+        pose proof (ordered_lo_hi t O) as B.
+        rewrite opt_nat_eqb_some_neq by lia.
+        simpl in Hcount. destruct (Nat.ltb_spec (length ns) (S count)); [lia|].
+        rewrite Hp. rewrite <- (plug_nid f t).
+        apply IH.
+        -- rewrite plug_nid. exact S2.
+        -- intros f' Hf'. apply C. right. exact Hf'.
+        -- rewrite plug_lo. exact F3.
+        -- apply plug_ordered; assumption.
+        -- rewrite plug_hi. exact Hid.
+        -- simpl in Hfuel. lia.
+        -- lia.
+        -- exact Hpop.
 Qed.
 
 Lemma fordered_length : forall fs b, fordered fs b -> length fs <= b.
@@ -275,30 +313,62 @@ Proof.
   specialize (IH _ F3). pose proof (frame_lo_le f F2) as B. lia.
 Qed.
 
+(* definitions of nodes that need no special treatment anywhere in the loop *)
+Definition calm_def (d : definition) : bool :=
+  negb (definition_eqb d D_SideEffect) && negb (is_optional d) &&
+  negb (definition_eqb d D_Subexpression) && negb (definition_eqb d D_ExpressionSeparator).
+
+Definition plain_def (d : definition) : bool := negb (is_group_like d) && calm_def d.
+
+Lemma prio10_plain d : priority d = Some 10%N -> plain_def d = true.
+Proof. destruct d; intros H; try reflexivity; vm_compute in H; discriminate H. Qed.
+
+Lemma plain_not_group d : plain_def d = true -> is_group_like d = false.
+Proof.
+  unfold plain_def. intros H. apply andb_true_iff in H. destruct H as [H _].
+  apply negb_true_iff. exact H.
+Qed.
+
+Lemma plain_calm d : plain_def d = true -> calm_def d = true.
+Proof. unfold plain_def. intros H. apply andb_true_iff in H. apply H. Qed.
+
 (* a completed operand: what last_left points at when an operator arrives *)
 Definition closed_operand (t : ntree) : Prop :=
   match t with
   | NAtom _ _ _ => True
-  | NSuf _ d _ _ => (exists their, priority d = Some their) /\ definition_eqb d D_SideEffect = false
+  | NSuf _ d _ _ => (exists their, priority d = Some their) /\ plain_def d = true
+  | NGroup _ _ _ => True
   | _ => False
   end.
 
-Lemma walk_operand ns id my rtl t p fuel :
-  denotes ns p t -> closed_operand t -> walk_stop my 10 rtl = false ->
-  walk (S fuel) ns id my false rtl None (Some (nid t)) (Some (nid t)) 0
-  = walk fuel ns id my false rtl None p (Some (nid t)) 1.
+Lemma walk_operand ns id my rtl ug t p fuel :
+  denotes ns p t -> closed_operand t -> ordered t -> hi t < id ->
+  walk_stop my 10 rtl = false -> walk_stop my 20 rtl = false ->
+  match ug with Some g => g <> nid t | None => True end ->
+  walk (S fuel) ns id my false rtl ug (Some (nid t)) (Some (nid t)) 0
+  = walk fuel ns id my false rtl ug p (Some (nid t)) 1.
 Proof.
-  intros D Cl Hstop. destruct t as [i d k|i d k a|i d k a|i d k l r]; simpl in Cl; try contradiction;
+  intros D Cl O Hid Hstop Hstop20 Hug.
+  destruct t as [i d k|i d k a|i d k a|i d k l r|i k a]; simpl in Cl; try contradiction;
     simpl in D; destruct D as (n & Hn & A); pose proof (nth_error_lt _ _ _ Hn) as Hlen;
     cbn [walk nid]; rewrite Hn; unfold prio_of.
   - destruct A as (A1 & A2 & A3 & A4 & A5 & A6 & A7). rewrite A3. cbn [bind].
     assert (Hs : secondary_eqb (n_sec n) S_UnarySuffix = false) by (destruct (n_sec n); try discriminate; reflexivity).
-    rewrite Hs. cbn [andb negb]. rewrite andb_false_r. fold (walk_stop my 10 rtl). rewrite Hstop. cbn [orb].
+    rewrite Hs, (plain_not_group _ (prio10_plain _ A3)). cbn [andb negb]. fold (walk_stop my 10 rtl). rewrite Hstop. cbn [orb].
     rewrite A6, A4. cbn [opt_nat_eqb].
     destruct (Nat.ltb_spec (length ns) 1); [lia|]. reflexivity.
-  - destruct A as (A1 & A2 & A3 & A4 & A5 & A6 & A7). destruct Cl as [[their Hth] _]. rewrite A2, Hth. cbn [bind].
-    rewrite A1. cbn [secondary_eqb secondary_index N.eqb Pos.eqb andb negb]. rewrite andb_false_r. cbn [orb].
+  - destruct A as (A1 & A2 & A3 & A4 & A5 & A6 & A7). destruct Cl as [[their Hth] Hpl]. rewrite A2, Hth. cbn [bind].
+    rewrite A1, (plain_not_group _ Hpl). cbn [secondary_eqb secondary_index N.eqb Pos.eqb andb negb orb].
     rewrite A5, A3. cbn [opt_nat_eqb].
+    destruct (Nat.ltb_spec (length ns) 1); [lia|]. reflexivity.
+  - destruct A as (A1 & A2 & A3 & A4 & A5 & A6 & A7). rewrite A2. cbn [priority bind is_group_like].
+    rewrite A1. cbn [secondary_eqb secondary_index N.eqb Pos.eqb andb negb].
+    fold (walk_stop my 20 rtl). rewrite Hstop20. cbn [orb].
+    assert (Hg : match ug with Some g => g =? i | None => false end = false).
+    { destruct ug as [g|]; [|reflexivity]. apply Nat.eqb_neq. exact Hug. }
+    rewrite Hg. rewrite A5, A3.
+    destruct O as [O1 O2]. pose proof (ordered_lo_hi a O2) as B. simpl in Hid.
+    rewrite opt_nat_eqb_some_neq by lia.
     destruct (Nat.ltb_spec (length ns) 1); [lia|]. reflexivity.
 Qed.
 
@@ -310,7 +380,7 @@ Lemma denotes_reparent ns ns' p q t n :
   denotes ns' q t.
 Proof.
   intros O D Hn Hnew E. revert D.
-  destruct t as [i d k|i d k a|i d k a|i d k l r]; simpl in *; intros (n0 & Hn0 & A);
+  destruct t as [i d k|i d k a|i d k a|i d k l r|i k a]; simpl in *; intros (n0 & Hn0 & A);
     rewrite Hn in Hn0; injection Hn0 as <-; exists (set_parent q n); (split; [exact Hnew|]).
   - unfold atom_node in *. simpl. tauto.
   - destruct A as (A1 & A2 & A3 & A4 & A5 & A6 & A7). simpl. repeat split; auto.
@@ -325,6 +395,9 @@ Proof.
       pose proof (ordered_range l j O3 Hj) as R. apply E; [auto|lia].
     + eapply denotes_ext; [|exact A6]. intros j Hj.
       pose proof (ordered_range r j O4 Hj) as R. apply E; [auto|lia].
+  - destruct A as (A1 & A2 & A3 & A4 & A5 & A6 & A7). simpl. repeat split; auto.
+    eapply denotes_ext; [|exact A7]. intros j Hj. destruct O as [O1 O2].
+    pose proof (ordered_range a j O2 Hj) as R. apply E; [auto|lia].
 Qed.
 
 (* parse_token on a completed operand below the open frames: the walk closes the
@@ -332,13 +405,13 @@ Qed.
    [length ns] about to be appended, and the innermost remaining frame its parent *)
 Lemma parse_token_linked ns fs t d my rtl fs' t' :
   linked ns fs t -> closed_operand t -> priority d = Some my ->
-  definition_eqb d D_SideEffect = false -> walk_stop my 10 rtl = false ->
+  definition_eqb d D_SideEffect = false -> walk_stop my 10 rtl = false -> walk_stop my 20 rtl = false ->
   compat d my rtl fs -> pop d fs t = (fs', t') ->
-  exists ns', parse_token (length ns) d (Some (nid t)) ns None rtl = Ok (ns', top_id fs', Some (nid t')) /\
+  exists ns', parse_token (length ns) d (Some (nid t)) ns (first_group fs) rtl = Ok (ns', top_id fs', Some (nid t')) /\
               length ns' = length ns /\ spine ns' fs' (length ns) /\ denotes ns' (Some (length ns)) t' /\
               (forall j, j < length ns -> j <> nid t' -> top_id fs' <> Some j -> nth_error ns' j = nth_error ns j).
 Proof.
-  intros L Cl Hprio Hse Hstop C Hpop.
+  intros L Cl Hprio Hse Hstop Hstop20 C Hpop.
   pose proof (pop_linked _ _ _ _ _ _ L Hpop) as L'.
   destruct L as [Sp D F O]. destruct L' as [Sp' D' F' O'].
   pose proof (ordered_lo_hi t O) as B. pose proof (ordered_lo_hi t' O') as B'.
@@ -346,13 +419,14 @@ Proof.
   pose proof (fordered_length _ _ F) as Hfl.
   pose proof (pop_hi _ _ _ _ _ Hpop) as Ehi.
   assert (Hhi : hi t < length ns).
-  { rewrite <- Ehi.
-    assert (has_id t' (hi t')) as Hh by (clear; induction t'; simpl; auto).
-    eapply denotes_lt; eauto. }
+  { rewrite <- Ehi. eapply denotes_lt; [exact D'|apply has_id_hi]. }
+  assert (Hug : match first_group fs with Some g => g <> nid t | None => True end).
+  { destruct (first_group fs) as [g|] eqn:Eg; [|exact I].
+    pose proof (frames_have_lt _ _ _ F (first_group_has _ _ Eg)) as R. lia. }
   destruct (denotes_root _ _ _ D') as (n' & Hn' & Hp').
   pose proof (nth_error_lt _ _ _ Hn') as Hlt'.
   unfold parse_token, prio_of. rewrite Hprio. cbn [bind]. rewrite Hse.
-  rewrite (walk_operand ns (length ns) my rtl t (top_id fs) (S (length ns)) D Cl Hstop).
+  rewrite (walk_operand ns (length ns) my rtl (first_group fs) t (top_id fs) (S (length ns)) D Cl O Hhi Hstop Hstop20 Hug).
   rewrite (walk_spine ns (length ns) d my rtl fs t (S (length ns)) 1 fs' t' Sp C F O Hhi ltac:(lia) ltac:(lia) Hpop).
   cbn [bind].
   destruct (upd_some ns (nid t') (set_parent (Some (length ns))) Hlt') as [ns1 U1].
@@ -390,11 +464,13 @@ Proof.
     + (* the frames *)
       simpl. split.
       * clear -S1 Hnf Hf3 Hother F2 B' F1.
-        destruct f as [i d0 k l|i d0 k]; simpl in *.
+        destruct f as [i d0 k l|i d0 k|i k]; simpl in *.
         -- destruct S1 as (n & H1 & H2 & H3 & H4 & H5 & H6). rewrite Hnf in H1. injection H1 as <-.
            exists (set_right (Some (length ns)) nf). split; [exact Hf3|]. simpl. repeat split; auto; try apply H2.
            eapply denotes_ext; [|exact H6]. intros j Hj. destruct F2 as [O2 H2'].
            pose proof (ordered_range l j O2 Hj) as R. apply Hother; lia.
+        -- destruct S1 as (n & H1 & H2). rewrite Hnf in H1. injection H1 as <-.
+           exists (set_right (Some (length ns)) nf). split; [exact Hf3|]. simpl. tauto.
         -- destruct S1 as (n & H1 & H2). rewrite Hnf in H1. injection H1 as <-.
            exists (set_right (Some (length ns)) nf). split; [exact Hf3|]. simpl. tauto.
       * eapply spine_ext; [|exact S2]. intros j Hj.
